@@ -49,8 +49,8 @@ def verifySections (v : View) (h : Hdr) (namesSize : Nat) : Nat → Nat → Opti
     else if shOffset > v.size ∨ shSize > v.size - shOffset then pure false
     else verifySections v h namesSize k (n + 1)
 
-/-- `imports_obj_verify(buffer, file_size) == 0` -/
-def verify (v : View) : Option Bool := do
+/-- first part of imports_obj_verify: length, magic, class and byte order -/
+def verifyIdent (v : View) : Option Bool := do
   if v.size < 52 then pure false else
   let b0 ← v.u8 0
   if b0 ≠ 0x7f then pure false else
@@ -62,7 +62,10 @@ def verify (v : View) : Option Bool := do
   if b3 ≠ 0x46 then pure false else
   let cls ← v.u8 4
   let dat ← v.u8 5
-  if cls ≠ 1 ∨ dat ≠ 1 then pure false else
+  if cls ≠ 1 ∨ dat ≠ 1 then pure false else pure true
+
+/-- second part: section header table, section name table, every section's extent -/
+def verifyTables (v : View) : Option Bool := do
   let h ← readHdr v
   if h.shentsize < 40 then pure false else
   if h.shoff > v.size ∨ h.shnum * h.shentsize > v.size - h.shoff then pure false else
@@ -75,6 +78,11 @@ def verify (v : View) : Option Bool := do
   let last ← v.u8 (namesOffset + namesSize - 1)
   if last ≠ 0 then pure false else
   verifySections v h namesSize h.shnum 0
+
+/-- `imports_obj_verify(buffer, file_size) == 0` -/
+def verify (v : View) : Option Bool := do
+  let ok ← verifyIdent v
+  if !ok then pure false else verifyTables v
 
 /-- a table the section loop found: `buffer + sh_offset`, `sh_size` -/
 structure Tab where
